@@ -79,3 +79,11 @@ impl ConstantTimeEq for u64 {
     #[verifier::external_body]
     fn ct_eq(&self, other: &Self) -> Choice { unimplemented!() }
 }
+
+// subtle: ConstantTimeEq for arrays of words = elementwise equality
+impl<const N: usize> ConstantTimeEq for [u32; N] {
+    open spec fn ct_wf(&self) -> bool { true }
+    open spec fn ct_eq_spec(&self, other: &Self) -> bool { self@ =~= other@ }
+    #[verifier::external_body]
+    fn ct_eq(&self, other: &Self) -> Choice { unimplemented!() }
+}
